@@ -16,7 +16,7 @@ from sim.runner import RunResult, Violation, HarnessError
 
 PROP = 'C17'
 
-TEMPLATES = ['wraps', 'wraps_annot', 'sigattr', 'fwd', 'meth', 'mod', 'deco', 'asforged', 'comb']
+TEMPLATES = ['wraps', 'wraps_annot', 'sigattr', 'fwd', 'meth', 'mod', 'deco', 'asforged', 'comb', 'instdep']
 
 ENTRIES = ['sigtools.signature', 'inspect.signature', 'sigtools.signature(auto=False)', 'signatures.signature']
 
@@ -31,6 +31,55 @@ def call_entry(name, subj):
     if name == 'sigtools.signature(auto=False)':
         return sigtools.signature(subj, auto=False)
     return signatures.signature(subj)
+
+
+def binding_of(o, names):
+    """Stable names of the instances the object handed out by the subject expression is bound
+    to (through __self__ of bound methods found in it, depth <= 3) -- 'each bound to the right
+    instance' must hold under interleaving too."""
+    import types
+    import functools
+    found = set()
+    seen = set()
+    todo = [(o, 0)]
+    while todo:
+        x, d = todo.pop()
+        if id(x) in seen or d > 3:
+            continue
+        seen.add(id(x))
+        if isinstance(x, types.MethodType):
+            n = names.get(id(x.__self__))
+            found.add(n if n is not None else '<unknown instance>')
+            todo.append((x.__func__, d + 1))
+            continue
+        if isinstance(x, functools.partial):
+            todo.append((x.func, d + 1))
+            continue
+        if isinstance(x, (types.FunctionType, type, types.BuiltinFunctionType)):
+            continue
+        try:
+            dd = object.__getattribute__(x, '__dict__')
+        except AttributeError:
+            continue
+        if isinstance(dd, dict):
+            for k in sorted(dd, key=str):
+                v = dd[k]
+                if isinstance(v, (types.MethodType, functools.partial)) or \
+                        type(v).__module__.startswith('sigtools'):
+                    todo.append((v, d + 1))
+    return tuple(sorted(found))
+
+
+def run_call(entry, w, label, names):
+    """Outcome of one call: (kind, normalised result, instances the subject is bound to)."""
+    box = []
+
+    def fn():
+        subj = w.subject(label)
+        box.append(subj)
+        return call_entry(entry, subj)
+    out = snapshot.outcome(fn, names)
+    return tuple(out) + (binding_of(box[0], names) if box else None,)
 
 
 # ---------------------------------------------------------------------------
@@ -124,12 +173,12 @@ class PCT(sched.Policy):
 _TWIN_CACHE = {}
 
 
-def expected_outcome(spec, entry, label, inspect_lines=False, need_wp=False, cfg=None):
+def expected_outcome(spec, entry, label, inspect_lines=False, need_wp=False, cfg=None, fine=False):
     """(outcome, steps, write points) of the call executed alone, under a
     one-thread scheduler, on a fresh twin world.  Memoised per world source text
     (it is a pure function of it).  Write points = local steps at which shared
     state changed, discovered by diffing (no line numbers are hard-coded)."""
-    key = (spec['source'], entry, label, inspect_lines)
+    key = (spec['source'], entry, label, inspect_lines, fine)
     r = _TWIN_CACHE.get(key)
     if r is not None and (r[2] is not None or not need_wp):
         return r
@@ -157,9 +206,9 @@ def expected_outcome(spec, entry, label, inspect_lines=False, need_wp=False, cfg
             policy = sched.Policy()
 
         def body(s, i):
-            out[0] = snapshot.outcome(lambda: call_entry(entry, w.subject(label)), names)
+            out[0] = run_call(entry, w, label, names)
         s = sched.Scheduler([body], policy, step_cap=(cfg or {}).get('step_cap', 400000),
-                            inspect_lines=inspect_lines)
+                            inspect_lines=inspect_lines, fine=fine)
         s.run()
         r = (out[0], s.step, points[:40] if points is not None else None)
     finally:
@@ -207,12 +256,16 @@ class C17Sched(object):
                 prog.append((entry, label))
             programs.append(prog)
         inspect_lines = bool(cfg.get('inspect_lines')) and ch.chance(1, 6, 'inspect-lines')
-        res.event('world', spec['template'], sorted(spec['params'].items(), key=str), programs, inspect_lines)
+        # fine: also yield where a call made from a sigtools line has just returned (the points
+        # inside a line at which CPython really can hand over the GIL)
+        fine = ch.chance(cfg.get('fine', 1), 4, 'fine-yield-points')
+        res.event('world', spec['template'], sorted(spec['params'].items(), key=str), programs, inspect_lines, fine)
+        res.counters['yield_points:' + ('line+after-call' if fine else 'line')] += 1
         tpl = spec['template']
 
         strategy = ch.weighted(cfg.get('strategy_weights', [3, 3, 2, 2]), 'strategy')
         first = ch.draw(nthreads, 'first-thread')
-        solo = [[expected_outcome(spec, e, l, inspect_lines, need_wp=(strategy == 1), cfg=cfg) for e, l in prog]
+        solo = [[expected_outcome(spec, e, l, inspect_lines, need_wp=(strategy == 1), cfg=cfg, fine=fine) for e, l in prog]
                 for prog in programs]
         expected = [[r[0] for r in t] for t in solo]
         solo_len = [sum(r[1] for r in t) for t in solo]
@@ -275,7 +328,7 @@ class C17Sched(object):
                 def body(s, i):
                     for c, (entry, label) in enumerate(programs[t]):
                         s.in_call[i] = True
-                        outcomes[t][c] = snapshot.outcome(lambda: call_entry(entry, w.subject(label)), names)
+                        outcomes[t][c] = run_call(entry, w, label, names)
                         s.in_call[i] = False
                 return body
 
@@ -288,7 +341,7 @@ class C17Sched(object):
 
             s = sched.Scheduler([make_prog(t) for t in range(nthreads)], policy,
                                 step_cap=cfg.get('step_cap', 400000), inspect_lines=inspect_lines,
-                                on_switch=on_switch)
+                                on_switch=on_switch, fine=fine)
             try:
                 s.run(timeout=cfg.get('sched_timeout', 120))
             except sched.Deadlock as e:
@@ -325,7 +378,7 @@ class C17Sched(object):
                     if snapshot.freeze(got) != snapshot.freeze(exp):
                         kind = 'exception' if got and got[0] == 'exc' else (
                             'signature' if got and got[0] == 'ok' and exp[0] == 'ok' and got[1]['str'] != exp[1]['str']
-                            else 'provenance')
+                            else ('instance' if got and exp and got[:2] == exp[:2] else 'provenance'))
                         viol('Q1', '{0}: wrong {1} under interleaving'.format(entry, kind),
                              'T{0} call {1} {2}({3}): alone={4} interleaved={5}; schedule={6}'.format(
                                  t, c, entry, label, _short(exp), _short(got), trace_txt))
@@ -344,7 +397,7 @@ class C17Sched(object):
                 viol('Q2', 'recursion guard stuck at quiescence', repr(gp[:4]))
                 return res
             entry, label = programs[0][0]
-            after = snapshot.outcome(lambda: call_entry(entry, w.subject(label)), names)
+            after = run_call(entry, w, label, names)
             if snapshot.freeze(after) != snapshot.freeze(expected[0][0]):
                 viol('Q2', 'solo retrieval after quiescence differs from baseline',
                      '{0}({1}): alone={2} after={3}; schedule={4}'.format(
@@ -370,7 +423,7 @@ def setup(tier):
     drivers = {'sched': C17Sched()}
     cfgs = {'sched': dict(name='sched', templates=TEMPLATES, max_forged=2 if thorough else 1,
                           max_depth=3 if thorough else 2, three_threads=3 if thorough else 1,
-                          inspect_lines=thorough, chunk=40, run_timeout=300, chunk_timeout=1200)}
+                          inspect_lines=thorough, fine=2 if thorough else 1, chunk=40, run_timeout=300, chunk_timeout=1200)}
     return drivers, cfgs
 
 
@@ -414,7 +467,7 @@ def check(tier, budget=None, minimise=True):
                    derivation='run_seed = sha256(VERIF_SEED, property, batch, tier, run index)[:8]'),
     )
     assumptions = [
-        'pre-emption at line granularity inside sigtools code (optionally inspect.py in the thorough tier); a race needing a switch between two bytecodes of one line is outside the explored space',
+        'pre-emption at line granularity inside sigtools code (optionally inspect.py in the thorough tier); in 1/4 (quick) / 1/2 (thorough) of the runs also inside a line wherever a call made from sigtools code has just returned (PY_RETURN/C_RETURN/C_RAISE), which together with function entry and backward jumps is where CPython 3.12 honours the eval breaker; a switch between two bytecodes with no call in between cannot happen under the GIL and is not explored',
         'only retrievals run concurrently (no decorating while retrieving)',
         'CPython with the GIL; automatic GC off during a run',
     ]
